@@ -14,6 +14,9 @@ W2 = [(1.2, -0.5), (1.2, 0.5), (1.8, 0.5), (1.8, -0.5)]
 VFLOOR = [(1.2, -0.4), (1.5, -0.68), (1.8, -0.4), (1.8, 0.5), (1.2, 0.5)]
 # a rectangle whose lower corners are chamfered at exactly 45 degrees (|dR| == |dZ| in floating point: all coordinates are dyadic)
 CHAMFER = [(1.1875 + 0.15625, -0.5), (1.8125 - 0.15625, -0.5), (1.8125, -0.5 + 0.15625), (1.8125, 0.5), (1.1875, 0.5), (1.1875, -0.5 + 0.15625)]
+# box with a shelf above the outer target and a pocket behind it: the outer SOL surfaces leave the wall through the top of the shelf, re-enter
+# in the pocket and leave for good through the floor; the target is the FIRST exit seen from the X-point
+SHELF = [(1.2, -0.5), (1.8, -0.5), (1.8, -0.47), (1.655, -0.47), (1.628, -0.42), (1.602, -0.38), (1.8, -0.38), (1.8, 0.5), (1.2, 0.5)]
 LIMITER = [(1.25, -0.45), (1.25, 0.45), (1.75, 0.45), (1.75, 0.12), (1.668, 0.12), (1.668, -0.06), (1.75, -0.06), (1.75, -0.45)]
 
 
@@ -94,6 +97,7 @@ def specs_for(tier):
          ("limiter-section orth lsn", gridlab.tokamak_spec("lsn", options={"psinorm_sol": 1.2}, wall=LIMITER, extract_rz=ex)),
          ("v-floor nonorth lsn", gridlab.tokamak_spec("lsn", options={"orthogonal": False, "nx_pf": 2, "psinorm_sol": 1.25, "psinorm_pf": 0.7,
                                                                         "target_all_poloidal_spacing_length": 0.1}, wall=VFLOOR, extract_rz=ex))]
+    S.append(("shelf nonorth lsn", gridlab.tokamak_spec("lsn", options={"orthogonal": False, "nx_pf": 2, "psinorm_sol": 1.3}, wall=SHELF, extract_rz=ex)))
     # far-SOL cells of both legs stick out through 45-degree chamfers
     S.append(("chamfer45 orth lsn", gridlab.tokamak_spec("lsn", options={"psinorm_sol": 1.3}, wall=CHAMFER, extract_rz=ex)))
     # a grid on which no two options that could be confused coincide (see gridlab.odd_spec)
